@@ -1649,3 +1649,46 @@ Lemma copier_outcome_precedence c sc dc :
     if negb sc then Some ESrcClose else if negb dc then Some EDstClose
     else if match c_status c with COk => true | _ => false end then None else Some EBody.
 Proof. unfold copier_outcome. destruct sc, dc; simpl; try reflexivity. destruct (c_status c); reflexivity. Qed.
+
+(* ------------------------------------------------------------------------------------------ *)
+(* open dispositions *)
+
+Definition oflags_norm_eqb (a b : oflags) : bool :=
+  Bool.eqb (o_creat a) (o_creat b) && Bool.eqb (o_creat a && o_excl a) (o_creat b && o_excl b)
+  && Bool.eqb (o_trunc a) (o_trunc b) && Bool.eqb (o_append a) (o_append b).
+
+Lemma posix_open_norm a b existing : oflags_norm_eqb a b = true -> posix_open a existing = posix_open b existing.
+Proof.
+  destruct a as [c1 e1 t1 a1], b as [c2 e2 t2 a2]. unfold oflags_norm_eqb, posix_open. simpl.
+  destruct c1, c2, e1, e2, t1, t2; simpl; intros H; try discriminate; destruct existing; reflexivity.
+Qed.
+
+Fixpoint upto (n : nat) : list Z := match n with O => [] | S k => upto k ++ [Z.of_nat k] end.
+
+Lemma upto_in n x : 0 <= x < Z.of_nat n -> In x (upto n).
+Proof.
+  induction n as [|n IH]; intros H; [lia|]. simpl. apply in_or_app.
+  destruct (Z.eq_dec x (Z.of_nat n)) as [->|Hne]; [right; left; reflexivity|left; apply IH; lia].
+Qed.
+
+(* every pflags value of the six defined bits, every version: a v5/v6 session opens like a v3 one *)
+Lemma session_open_same_table :
+  forallb (fun pflags => oflags_norm_eqb (session_open 6 pflags) (session_open 3 pflags)) (upto 64) = true.
+Proof. vm_compute. reflexivity. Qed.
+
+Lemma session_open_version_independent version pflags existing : 0 <= pflags < 64 ->
+  posix_open (session_open version pflags) existing = posix_open (server_open_v3 pflags) existing.
+Proof.
+  intros H. unfold session_open at 1. destruct (5 <=? version) eqn:E; [|reflexivity].
+  pose proof session_open_same_table as Ht. rewrite forallb_forall in Ht.
+  specialize (Ht pflags (upto_in 64 pflags H)).
+  apply posix_open_norm. exact Ht.
+Qed.
+
+(* a destination opened with mode 'wb' is empty before the first write, whatever it held *)
+Lemma open_w_empties version existing :
+  posix_open (session_open version PFLAGS_W) existing = Some [].
+Proof.
+  rewrite session_open_version_independent by (unfold PFLAGS_W; lia).
+  destruct existing; reflexivity.
+Qed.
